@@ -210,6 +210,51 @@ def run(ctx):
                 ctx.violation("C02/fptofp_simplifier/%s/%s" % (fmt, "nan" if P.is_nan_bits(fmt, b) else "non-nan"),
                               "fpToFP(fpToIEEEBV(y)) with y = %#x is built as %s and does not denote y" % (b, r2.op),
                               {"kind": "cancel", "rule": 2, "fmt": fmt, "bits": b})
+    # ---------------------------------------------------------------- 4c. construction-time rewrites of arithmetic nodes
+    # one SYMBOLIC operand and one literal operand (the neutral / absorbing candidates), either position, every mode:
+    # the expression claripy BUILDS (after any rewrite in simplifications.py) is translated to Z3 and evaluated with the
+    # symbol pinned to boundary patterns; SMT-LIB's value of the written operation is Z3 on the two literals.
+    import z3 as _z3
+    bzb = claripy.backends.z3
+    n_built = 0
+    for fmt in "FD":
+        S, W = P.sort_obj(fmt), P.WIDTH[fmt]
+        eb_, sb_ = P.FMT[fmt]
+        sign, one = 1 << (W - 1), ((1 << (eb_ - 1)) - 1) << (sb_ - 1)
+        inf_, nan_ = ((1 << eb_) - 1) << (sb_ - 1), (((1 << eb_) - 1) << (sb_ - 1)) | (1 << (sb_ - 2))
+        lits = [0, sign, one, one | sign, one + (1 << (sb_ - 1)), inf_, 1]        # +0 -0 1 -1 2 inf min-subnormal
+        xs = [0, sign, one, one | sign, 1, sign | 1, inf_, inf_ | sign, nan_, one + 1, (one - (1 << (sb_ - 1))) | 1]
+        xb = claripy.BVS("c02_sym", W)
+        xf = xb.raw_to_fp()
+        zx = bzb.convert(xb)
+        for op in P.OPS_ARITH:
+            for rm in P.RMS:
+                R = P.rm_obj(rm)
+                for lit in lits:
+                    L = P.real_fpv(fmt, lit)
+                    for pos in (0, 1):
+                        try:
+                            built = getattr(claripy, op)(R, xf, L) if pos == 0 else getattr(claripy, op)(R, L, xf)
+                            zb = bzb.convert(built)
+                        except Exception as ex:  # noqa
+                            ctx.violation("C02/%s/construction/%s/raised:%s" % (op, rm, type(ex).__name__),
+                                          "%s(%s, symbolic, literal %#x) cannot be built/translated: %s" % (op, rm, lit, str(ex)[:100]),
+                                          {"kind": "built", "op": op, "fmt": fmt, "rm": rm, "lit": lit, "pos": pos, "x": 0})
+                            continue
+                        for xv in xs:
+                            a = (xv, lit) if pos == 0 else (lit, xv)
+                            want = z.solver_side(op, fmt, rm, a)
+                            got = z.value(_z3.substitute(zb, (zx, _z3.BitVecVal(xv, W, z.ctx))))
+                            ctx.count(); n_built += 1
+                            if got != want:
+                                cls = {0: "+0", sign: "-0", one: "1", one | sign: "-1", inf_: "inf"}.get(lit, "other")
+                                sig = "C02/%s/construction-rewrite/literal=%s/pos=%d/%s" % (op, cls, pos, rm)
+                                if sig not in reported:
+                                    reported.add(sig)
+                                    ctx.violation(sig, "%s(%s, %s) with the symbolic operand = %#x is built as %s and denotes %s; SMT-LIB gives %s" % (
+                                        op, rm, "x, %#x" % lit if pos == 0 else "%#x, x" % lit, xv, built.op, P.fmt_res(got), P.fmt_res(want)),
+                                        {"kind": "built", "op": op, "fmt": fmt, "rm": rm, "lit": lit, "pos": pos, "x": xv})
+    ctx.cov["built_expression_evaluations"] = n_built
     # ---------------------------------------------------------------- 5. symbolic side end to end (sample)
     n = ctx.pick(60, 600)
     ar = [c for c in cases if c[0] in P.OPS_ARITH + ("fpSqrt", "fpToFP_fp", "fpToSBV")]
@@ -267,6 +312,19 @@ def e2e(z, op, fmt, rm, a):
 def replay(ctx, obj):
     r = obj["replay"]
     z = P.ZF()
+    if r["kind"] == "built":
+        import claripy, z3 as _z3
+        fmt, op, rm, lit, pos, xv = r["fmt"], r["op"], r["rm"], r["lit"], r["pos"], r["x"]
+        W = P.WIDTH[fmt]
+        xb = claripy.BVS("c02_sym", W)
+        xf = xb.raw_to_fp()
+        L = P.real_fpv(fmt, lit)
+        built = getattr(claripy, op)(P.rm_obj(rm), xf, L) if pos == 0 else getattr(claripy, op)(P.rm_obj(rm), L, xf)
+        bzb = claripy.backends.z3
+        got = z.value(_z3.substitute(bzb.convert(built), (bzb.convert(xb), _z3.BitVecVal(xv, W, z.ctx))))
+        want = z.solver_side(op, fmt, rm, (xv, lit) if pos == 0 else (lit, xv))
+        print("%s %s built as %s: denotes %s at x=%#x, SMT-LIB gives %s" % (op, rm, built.op, P.fmt_res(got), xv, P.fmt_res(want)))
+        return 0 if got == want else 1
     if r["kind"] == "cancel":
         import claripy
         fmt, b = r["fmt"], r["bits"]
